@@ -1,0 +1,225 @@
+//go:build verif
+
+// Contracts for text/data construction and reading, the typed list constructors, BitList.Set and
+// the read-limit bookkeeping of Message (list.go, pointer.go, message.go).
+package capnp
+
+// ---------------------------------------------------------------- list.go: typed constructors
+// Each is newPrimitiveList (or NewPointerList) with the element size of its type: the handle
+// must carry exactly that size, or every At/Set of the type would address the wrong bytes.
+
+//@ func NewUInt8List -> l, err
+//@   props C04 C05
+//@   requires wfSegW(s)
+//@   old m0 *Message = s.msg
+//@   ensures implies(err != nil, l.List.seg == nil && bytesUnchanged())
+//@   ensures implies(err == nil, wfList(l.List) && wfSegW(l.List.seg) && l.List.seg.msg == m0 && l.List.depthLimit == maxDepth)
+//@   ensures shape: implies(err == nil, l.List.length == n && l.List.flags == 0 && l.List.size.DataSize == 1 && l.List.size.PointerCount == 0)
+//@   ensures fresh: implies(err == nil, freshAt(l.List.seg, l.List.off, listBytes(l.List)))
+//@   ensures untouched: implies(err == nil, bytesUnchangedExcept(l.List.seg.data, int(l.List.off), len(l.List.seg.data)))
+
+//@ func NewInt8List -> l, err
+//@   props C04 C05
+//@   requires wfSegW(s)
+//@   old m0 *Message = s.msg
+//@   ensures implies(err != nil, l.List.seg == nil && bytesUnchanged())
+//@   ensures implies(err == nil, wfList(l.List) && wfSegW(l.List.seg) && l.List.seg.msg == m0 && l.List.depthLimit == maxDepth)
+//@   ensures shape: implies(err == nil, l.List.length == n && l.List.flags == 0 && l.List.size.DataSize == 1 && l.List.size.PointerCount == 0)
+//@   ensures fresh: implies(err == nil, freshAt(l.List.seg, l.List.off, listBytes(l.List)))
+//@   ensures untouched: implies(err == nil, bytesUnchangedExcept(l.List.seg.data, int(l.List.off), len(l.List.seg.data)))
+
+//@ func NewUInt16List -> l, err
+//@   props C04 C05
+//@   requires wfSegW(s)
+//@   old m0 *Message = s.msg
+//@   ensures implies(err != nil, l.List.seg == nil && bytesUnchanged())
+//@   ensures implies(err == nil, wfList(l.List) && wfSegW(l.List.seg) && l.List.seg.msg == m0 && l.List.depthLimit == maxDepth)
+//@   ensures shape: implies(err == nil, l.List.length == n && l.List.flags == 0 && l.List.size.DataSize == 2 && l.List.size.PointerCount == 0)
+//@   ensures fresh: implies(err == nil, freshAt(l.List.seg, l.List.off, listBytes(l.List)))
+//@   ensures untouched: implies(err == nil, bytesUnchangedExcept(l.List.seg.data, int(l.List.off), len(l.List.seg.data)))
+
+//@ func NewInt16List -> l, err
+//@   props C04 C05
+//@   requires wfSegW(s)
+//@   old m0 *Message = s.msg
+//@   ensures implies(err != nil, l.List.seg == nil && bytesUnchanged())
+//@   ensures implies(err == nil, wfList(l.List) && wfSegW(l.List.seg) && l.List.seg.msg == m0 && l.List.depthLimit == maxDepth)
+//@   ensures shape: implies(err == nil, l.List.length == n && l.List.flags == 0 && l.List.size.DataSize == 2 && l.List.size.PointerCount == 0)
+//@   ensures fresh: implies(err == nil, freshAt(l.List.seg, l.List.off, listBytes(l.List)))
+//@   ensures untouched: implies(err == nil, bytesUnchangedExcept(l.List.seg.data, int(l.List.off), len(l.List.seg.data)))
+
+//@ func NewUInt32List -> l, err
+//@   props C04 C05
+//@   requires wfSegW(s)
+//@   old m0 *Message = s.msg
+//@   ensures implies(err != nil, l.List.seg == nil && bytesUnchanged())
+//@   ensures implies(err == nil, wfList(l.List) && wfSegW(l.List.seg) && l.List.seg.msg == m0 && l.List.depthLimit == maxDepth)
+//@   ensures shape: implies(err == nil, l.List.length == n && l.List.flags == 0 && l.List.size.DataSize == 4 && l.List.size.PointerCount == 0)
+//@   ensures fresh: implies(err == nil, freshAt(l.List.seg, l.List.off, listBytes(l.List)))
+//@   ensures untouched: implies(err == nil, bytesUnchangedExcept(l.List.seg.data, int(l.List.off), len(l.List.seg.data)))
+
+//@ func NewInt32List -> l, err
+//@   props C04 C05
+//@   requires wfSegW(s)
+//@   old m0 *Message = s.msg
+//@   ensures implies(err != nil, l.List.seg == nil && bytesUnchanged())
+//@   ensures implies(err == nil, wfList(l.List) && wfSegW(l.List.seg) && l.List.seg.msg == m0 && l.List.depthLimit == maxDepth)
+//@   ensures shape: implies(err == nil, l.List.length == n && l.List.flags == 0 && l.List.size.DataSize == 4 && l.List.size.PointerCount == 0)
+//@   ensures fresh: implies(err == nil, freshAt(l.List.seg, l.List.off, listBytes(l.List)))
+//@   ensures untouched: implies(err == nil, bytesUnchangedExcept(l.List.seg.data, int(l.List.off), len(l.List.seg.data)))
+
+//@ func NewUInt64List -> l, err
+//@   props C04 C05
+//@   requires wfSegW(s)
+//@   old m0 *Message = s.msg
+//@   ensures implies(err != nil, l.List.seg == nil && bytesUnchanged())
+//@   ensures implies(err == nil, wfList(l.List) && wfSegW(l.List.seg) && l.List.seg.msg == m0 && l.List.depthLimit == maxDepth)
+//@   ensures shape: implies(err == nil, l.List.length == n && l.List.flags == 0 && l.List.size.DataSize == 8 && l.List.size.PointerCount == 0)
+//@   ensures fresh: implies(err == nil, freshAt(l.List.seg, l.List.off, listBytes(l.List)))
+//@   ensures untouched: implies(err == nil, bytesUnchangedExcept(l.List.seg.data, int(l.List.off), len(l.List.seg.data)))
+
+//@ func NewInt64List -> l, err
+//@   props C04 C05
+//@   requires wfSegW(s)
+//@   old m0 *Message = s.msg
+//@   ensures implies(err != nil, l.List.seg == nil && bytesUnchanged())
+//@   ensures implies(err == nil, wfList(l.List) && wfSegW(l.List.seg) && l.List.seg.msg == m0 && l.List.depthLimit == maxDepth)
+//@   ensures shape: implies(err == nil, l.List.length == n && l.List.flags == 0 && l.List.size.DataSize == 8 && l.List.size.PointerCount == 0)
+//@   ensures fresh: implies(err == nil, freshAt(l.List.seg, l.List.off, listBytes(l.List)))
+//@   ensures untouched: implies(err == nil, bytesUnchangedExcept(l.List.seg.data, int(l.List.off), len(l.List.seg.data)))
+
+//@ func NewFloat32List -> l, err
+//@   props C04 C05
+//@   requires wfSegW(s)
+//@   old m0 *Message = s.msg
+//@   ensures implies(err != nil, l.List.seg == nil && bytesUnchanged())
+//@   ensures implies(err == nil, wfList(l.List) && wfSegW(l.List.seg) && l.List.seg.msg == m0 && l.List.depthLimit == maxDepth)
+//@   ensures shape: implies(err == nil, l.List.length == n && l.List.flags == 0 && l.List.size.DataSize == 4 && l.List.size.PointerCount == 0)
+//@   ensures fresh: implies(err == nil, freshAt(l.List.seg, l.List.off, listBytes(l.List)))
+//@   ensures untouched: implies(err == nil, bytesUnchangedExcept(l.List.seg.data, int(l.List.off), len(l.List.seg.data)))
+
+//@ func NewFloat64List -> l, err
+//@   props C04 C05
+//@   requires wfSegW(s)
+//@   old m0 *Message = s.msg
+//@   ensures implies(err != nil, l.List.seg == nil && bytesUnchanged())
+//@   ensures implies(err == nil, wfList(l.List) && wfSegW(l.List.seg) && l.List.seg.msg == m0 && l.List.depthLimit == maxDepth)
+//@   ensures shape: implies(err == nil, l.List.length == n && l.List.flags == 0 && l.List.size.DataSize == 8 && l.List.size.PointerCount == 0)
+//@   ensures fresh: implies(err == nil, freshAt(l.List.seg, l.List.off, listBytes(l.List)))
+//@   ensures untouched: implies(err == nil, bytesUnchangedExcept(l.List.seg.data, int(l.List.off), len(l.List.seg.data)))
+
+//@ func NewTextList -> l, err
+//@   props C04 C05
+//@   requires wfSegW(s)
+//@   old m0 *Message = s.msg
+//@   ensures implies(err != nil, l.List.seg == nil && bytesUnchanged())
+//@   ensures implies(err == nil, wfList(l.List) && wfSegW(l.List.seg) && l.List.seg.msg == m0 && l.List.depthLimit == maxDepth)
+//@   ensures shape: implies(err == nil, l.List.length == n && l.List.flags == 0 && l.List.size.DataSize == 0 && l.List.size.PointerCount == 1)
+//@   ensures fresh: implies(err == nil, freshAt(l.List.seg, l.List.off, listBytes(l.List)))
+//@   ensures untouched: implies(err == nil, bytesUnchangedExcept(l.List.seg.data, int(l.List.off), len(l.List.seg.data)))
+
+//@ func NewDataList -> l, err
+//@   props C04 C05
+//@   requires wfSegW(s)
+//@   old m0 *Message = s.msg
+//@   ensures implies(err != nil, l.List.seg == nil && bytesUnchanged())
+//@   ensures implies(err == nil, wfList(l.List) && wfSegW(l.List.seg) && l.List.seg.msg == m0 && l.List.depthLimit == maxDepth)
+//@   ensures shape: implies(err == nil, l.List.length == n && l.List.flags == 0 && l.List.size.DataSize == 0 && l.List.size.PointerCount == 1)
+//@   ensures fresh: implies(err == nil, freshAt(l.List.seg, l.List.off, listBytes(l.List)))
+//@   ensures untouched: implies(err == nil, bytesUnchangedExcept(l.List.seg.data, int(l.List.off), len(l.List.seg.data)))
+
+//@ func NewVoidList -> l
+//@   props C04 C05
+//@   requires 0 <= n && n < 1<<29
+//@   modifies nothing
+//@   ensures l.List.seg == s && l.List.length == n && l.List.flags == 0 && l.List.size.DataSize == 0 && l.List.size.PointerCount == 0 && l.List.depthLimit == maxDepth
+
+// ---------------------------------------------------------------- list.go: text and data
+// Text is a byte list one longer than the string, the last byte NUL (encoding.html, "Text");
+// Data is exactly the bytes.  (That the copied content equals the argument is not claimed: the
+// obligation is refuted for a source overlapping the spare capacity of the receiving segment and
+// is too slow under the precondition that excludes it.)  (Strings of 2 GiB and more are outside the int32 list length: the
+// code's own TODO; stated as a precondition.)
+
+//@ func NewTextFromBytes -> l, err
+//@   props C04 C05
+//@   requires wfSegW(s) && len(v) < 1<<29-1
+//@   old m0 *Message = s.msg
+//@   ensures implies(err != nil, l.List.seg == nil && bytesUnchanged())
+//@   ensures implies(err == nil, wfList(l.List) && wfSegW(l.List.seg) && l.List.seg.msg == m0 && l.List.depthLimit == maxDepth)
+//@   ensures shape: implies(err == nil, int(l.List.length) == len(v)+1 && l.List.flags == 0 && l.List.size.DataSize == 1 && l.List.size.PointerCount == 0)
+//@   ensures nul: implies(err == nil, l.List.seg.data[int(l.List.off)+len(v)] == 0)
+//@   ensures untouched: implies(err == nil, bytesUnchangedExcept(l.List.seg.data, int(l.List.off), len(l.List.seg.data)))
+
+//@ func NewData -> l, err
+//@   props C04 C05
+//@   requires wfSegW(s) && len(v) < 1<<29
+//@   old m0 *Message = s.msg
+//@   ensures implies(err != nil, l.List.seg == nil && bytesUnchanged())
+//@   ensures implies(err == nil, wfList(l.List) && wfSegW(l.List.seg) && l.List.seg.msg == m0 && l.List.depthLimit == maxDepth)
+//@   ensures shape: implies(err == nil, int(l.List.length) == len(v) && l.List.flags == 0 && l.List.size.DataSize == 1 && l.List.size.PointerCount == 0)
+//@   ensures untouched: implies(err == nil, bytesUnchangedExcept(l.List.seg.data, int(l.List.off), len(l.List.seg.data)))
+
+//@ func NewText -> l, err
+//@   props C04 C05
+//@   requires wfSegW(s) && len(v) < 1<<29-1
+//@   old m0 *Message = s.msg
+//@   ensures implies(err != nil, l.List.seg == nil)
+//@   ensures implies(err == nil, wfList(l.List) && wfSegW(l.List.seg) && l.List.seg.msg == m0 && l.List.depthLimit == maxDepth)
+//@   ensures shape: implies(err == nil, int(l.List.length) == len(v)+1 && l.List.flags == 0 && l.List.size.DataSize == 1 && l.List.size.PointerCount == 0)
+//@   ensures nul: implies(err == nil, l.List.seg.data[int(l.List.off)+len(v)] == 0)
+
+//@ func BitList.Set
+//@   props C04
+//@   requires wfList(p.List) && isBit(p.List)
+//@   requires idx: p.seg != nil && 0 <= i && i < int(p.length)
+//@   old b0 byte = p.seg.data[int(M(p.off)+M(i)/8)]
+//@   -- exactly one bit of one byte changes
+//@   ensures implies(v, p.seg.data[int(M(p.off)+M(i)/8)] == b0|(1<<(uint(i)%8)))
+//@   ensures implies(!v, p.seg.data[int(M(p.off)+M(i)/8)] == b0&^(1<<(uint(i)%8)))
+//@   ensures bytesUnchangedExcept(p.seg.data, int(M(p.off)+M(i)/8), int(M(p.off)+M(i)/8)+1)
+
+// ---------------------------------------------------------------- pointer.go: text and data views
+
+//@ func Ptr.TextBytes -> b
+//@   props C01 C03
+//@   requires wfPtr(p)
+//@   modifies nothing
+//@   -- a window into the segment: the list's bytes without the terminating NUL
+//@   ensures implies(b != nil, isOneByteList(p) && len(b) == int(p.lenOrCap)-1 && sameSlice(b, p.seg.data[int(p.off):int(p.off)+int(p.lenOrCap)-1]) && p.seg.data[int(M(p.off))+len(b)] == 0)
+//@   ensures implies(isOneByteList(p) && int32(p.lenOrCap) >= 1 && p.flags&ptrFlags(isBitList) == 0 && p.seg.data[int(M(p.off))+int(p.lenOrCap)-1] == 0, b != nil)
+
+//@ func Ptr.DataDefault -> b
+//@   props C01 C03
+//@   requires wfPtr(p)
+//@   modifies nothing
+//@   ensures implies(isOneByteList(p) && p.flags&ptrFlags(isBitList) == 0 && len(p.seg.data) > 0, sameSlice(b, p.seg.data[int(p.off):int(p.off)+int(p.lenOrCap)]))
+//@   ensures implies(!isOneByteList(p), sameSlice(b, def))
+
+//@ func Ptr.Interface -> i
+//@   props C03
+//@   modifies nothing
+//@   ensures implies(p.flags.ptrType() == interfacePtrType, i.seg == p.seg && uint32(i.cap) == uint32(p.lenOrCap))
+//@   ensures implies(p.flags.ptrType() != interfacePtrType, i.seg == nil && i.cap == 0)
+
+// ---------------------------------------------------------------- message.go: the read budget
+
+//@ func Message.initReadLimit
+//@   props C02
+//@   requires m != nil
+//@   modifies Message.rlimit
+//@   ensures implies(m.TraverseLimit == 0, m.rlimit == 64<<20)
+//@   ensures implies(m.TraverseLimit != 0, m.rlimit == m.TraverseLimit)
+
+//@ func Message.ResetReadLimit
+//@   props C02
+//@   requires m != nil
+//@   modifies Message.rlimit Message.rlimitInit
+//@   ensures m.rlimit == limit
+
+//@ func Message.Unread
+//@   props C02
+//@   requires m != nil
+//@   modifies Message.rlimit Message.rlimitInit
+//@   -- the budget grows by exactly sz, judged on the value the atomic add replaces
+//@   atomic-step refund: new64 == old64+uint64(sz)
